@@ -405,7 +405,8 @@ def observe(case, res, known_ids=None):
 
 def run(ctx):
     vplib.gen_consts(ctx)
-    proofs_ok, detail = vplib.check_proofs(ctx)
+    system_leg = os.environ.get("VERIF_SYSTEM_LEG", "1") == "1"      # the composed request-path model (checks/system.py, notes/System.md)
+    proofs_ok, detail = vplib.check_proofs(ctx, extra_targets=["Props/System.vo"], extra_props=["System"]) if system_leg else vplib.check_proofs(ctx)
     ctx.log("proofs:", proofs_ok, detail[:200])
     if proofs_ok and not ctx.quick:
         chk_ok, chk_log = vplib.coqchk(ctx)
@@ -750,5 +751,15 @@ def run(ctx):
         "the two 500 paths (counter / rules getter failing) need a dead actor and are covered by the model only",
         "the OS view (user name, groups, exe path) used for claims is computed independently with pwd/grp//proc and compared with the agent's summaries",
     ]
+    if os.environ.get("VERIF_SYSTEM_LEG", "1") == "1":
+        # end-to-end leg of the composed model System.system_step (its theorems were built and counted above)
+        from checks import system
+        sys_dis, sys_fail, sys_stats = system.run_leg(ctx)
+        disagreements += [dict(d, leg="System.system_step") for d in sys_dis]
+        failures += sys_fail
+        ctx.coverage["system_leg"] = sys_stats
+        ctx.coverage["evaluations"] += sys_stats["requests"]
+        ctx.coverage["traces_validated_against_impl"] += sys_stats["agree"]
+        ctx.assumptions += system.ASSUMPTIONS
     verdict(ctx, proofs_ok, detail, disagreements, failures,
             corr_name="Server.serve (accept + handle) vs the real ProxyServer end to end")
